@@ -76,7 +76,7 @@ Definition exempt : list (string * exclass) := [
   ("ri_bs.cost_per_time_unit", ExOde);
   ("ri_bs.optimal_step", ExOde);
   ("ri_bs.coeff", ExOde);
-  ("ri_bs.dt_proposed", ExScratch);           (* copied into r->dt (persisted) at the end of every BS step *)
+  ("ri_bs.dt_proposed", ExOde);               (* BS as main integrator: copied into r->dt (persisted) after every step, never read before rewritten (probe: no effect); only read as sub-step size for user ODEs, which are not persistable *)
   ("ri_bs.user_ode_needs_nbody", ExOde);
   ("odes", ExOde);
   ("N_odes", ExOde);
